@@ -17,6 +17,7 @@ from concurrent.futures import ThreadPoolExecutor
 VERIF = os.path.dirname(os.path.dirname(os.path.abspath(__file__)))
 REPO = os.environ.get('VERIF_REPO', '/repo')
 COQ = os.path.join(VERIF, 'coq')
+BUILD = COQ   # where the compiled development lives for this run (a private clean copy in the thorough tier)
 sys.path.insert(0, os.path.join(VERIF, 'lib'))
 import props  # noqa: E402
 
@@ -87,6 +88,26 @@ def make_coq(clean=False):
         lock.close()
 
 
+def private_clean_build(work):
+    """thorough tier: compile the development from clean in a private copy, so that a clean
+    rebuild never pulls compiled files from under a check that runs at the same time"""
+    global BUILD
+    dst = os.path.join(work, 'coqbuild')
+    shutil.rmtree(dst, ignore_errors=True)
+    for f in glob.glob(os.path.join(COQ, '**', '*.v'), recursive=True):
+        rel = os.path.relpath(f, COQ)
+        os.makedirs(os.path.dirname(os.path.join(dst, rel)), exist_ok=True)
+        shutil.copy(f, os.path.join(dst, rel))
+    shutil.copy(os.path.join(COQ, '_CoqProject'), os.path.join(dst, '_CoqProject'))
+    r = run(['coq_makefile', '-f', '_CoqProject', '-o', 'Makefile'], cwd=dst)
+    if r.returncode != 0:
+        return False, r.stdout
+    r = run(['timeout', '3000', 'make', '-C', dst, '-j16'])
+    if r.returncode == 0:
+        BUILD = dst
+    return r.returncode == 0, r.stdout
+
+
 def property_obligations(pid, work):
     """Recompile Properties/<pid>.v (only `exact`-style proofs, fast) and account for every
     Theorem in it: name, whether it was accepted, and what Print Assumptions says."""
@@ -98,7 +119,7 @@ def property_obligations(pid, work):
     tmp = os.path.join(work, 'prop')
     os.makedirs(tmp, exist_ok=True)
     shutil.copy(src_path, os.path.join(tmp, pid + '_recheck.v'))
-    r = run(['timeout', '900', 'coqc', '-Q', COQ, 'Wasp', '-w', '-all', pid + '_recheck.v'], cwd=tmp)
+    r = run(['timeout', '900', 'coqc', '-Q', BUILD, 'Wasp', '-w', '-all', pid + '_recheck.v'], cwd=tmp)
     ok = r.returncode == 0
     closed = len(re.findall(r'Closed under the global context', r.stdout))
     axioms = sorted(set(re.findall(r'^([A-Za-z0-9_.\']+)\s*:', r.stdout.split('Axioms:', 1)[1], re.M))) \
@@ -121,7 +142,7 @@ def eval_shard(args):
         f.write('Definition M := Eval vm_compute in mismatches cases.\n')
         f.write('Definition O := Eval vm_compute in oracle_failures cases.\n')
         f.write('Print M.\nPrint O.\n')
-    r = run(['timeout', '1500', 'coqc', '-Q', COQ, 'Wasp', '-w', '-all', name + '.v'], cwd=work)
+    r = run(['timeout', '1500', 'coqc', '-Q', BUILD, 'Wasp', '-w', '-all', name + '.v'], cwd=work)
     if r.returncode != 0:
         return None, None, r.stdout[-3000:]
     m = re.search(r'M\s*=\s*(.*?)\n\s*:\s*list N', r.stdout, re.S)
@@ -294,7 +315,10 @@ def main():
     bad = gate()
     if bad:
         proof_problems.append('forbidden constructs: ' + '; '.join(bad))
-    ok, out = make_coq(clean=(tier == 'thorough' and os.environ.get('VERIF_NO_CLEAN') != '1' and not a.replay))
+    if tier == 'thorough' and os.environ.get('VERIF_NO_CLEAN') != '1' and not a.replay:
+        ok, out = private_clean_build(work)
+    else:
+        ok, out = make_coq()
     if not ok:
         proof_problems.append('coq build failed:\n' + out[-3000:])
     ob = dict(ok=False, theorems=[], examples=[], closed=0, printed=0, axioms=[], output='')
@@ -313,7 +337,7 @@ def main():
             proof_problems.append('theorems missing from Properties/%s.v: %s' % (pid, ', '.join(missing)))
     coqchk = None
     if tier == 'thorough' and ok and not a.replay and os.environ.get('VERIF_NO_COQCHK') != '1':
-        r = run(['timeout', '3000', 'coqchk', '-silent', '-o', '-Q', COQ, 'Wasp', 'Wasp.Properties.' + pid])
+        r = run(['timeout', '3000', 'coqchk', '-silent', '-o', '-Q', BUILD, 'Wasp', 'Wasp.Properties.' + pid])
         coqchk = r.stdout[-3000:]
         if r.returncode != 0:
             proof_problems.append('coqchk failed:\n' + coqchk)
@@ -538,9 +562,18 @@ def do_replay(pid, P, binp, work, path):
     return 0
 
 
+def _cleanup():
+    # the private build of a thorough run is scratch: remove it (evidence and replays stay)
+    if BUILD != COQ:
+        shutil.rmtree(BUILD, ignore_errors=True)
+
+
 if __name__ == '__main__':
     try:
-        sys.exit(main())
+        rc = main()
     except RuntimeError as e:
         log('check could not run:', e)
-        sys.exit(2)
+        rc = 2
+    finally:
+        _cleanup()
+    sys.exit(rc)
